@@ -484,9 +484,24 @@ def equivalent(t1, t2, domain=(), box=None, box_limit=200000):
     'equal' is a proof (piece-wise over Q, sound for Z); 'differ' always carries a concrete integer witness."""
     if t1 == t2:
         return ('equal', 'identical normal form')
-    ats = sorted(atoms(t1) | atoms(t2) | set().union(*[atoms(d) for d in domain]) if domain else atoms(t1) | atoms(t2))
-    # 1. look for a witness in a box
-    w = find_witness(t1, t2, domain, ats, box, box_limit)
+    key = (t1, t2, tuple(domain))
+    if key in _EQ_CACHE:
+        return _EQ_CACHE[key]
+    r = _equivalent(t1, t2, domain, box, box_limit)
+    _EQ_CACHE[key] = r
+    return r
+
+
+_EQ_CACHE = {}
+
+
+def _equivalent(t1, t2, domain, box, box_limit):
+    ats = sorted(atoms(t1) | atoms(t2))
+    # 1. look for a witness in a box (only constraints over the terms' own atoms restrict the search)
+    sa = set(ats)
+    wdom = [d for d in domain if atoms(d) <= sa]
+    domain = [d for d in domain if atoms(d) & sa or True]
+    w = find_witness(t1, t2, wdom, ats, box, min(box_limit, 40000))
     if w is not None:
         return ('differ', w)
     # 2. prove
